@@ -50,7 +50,8 @@ def main():
         lean = {"ok": True, "obligations": ["(skipped)"], "discharged": ["(skipped)"], "problems": [], "checker_cmd": "skipped", "axioms": {}}
     else:
         try:
-            lean = C.lean_obligations(prop, extra_modules=getattr(mod, "EXTRA_LEAN_MODULES", ()), thorough=(args.tier == "thorough"))
+            lean = C.lean_obligations(prop, extra_modules=getattr(mod, "EXTRA_LEAN_MODULES", ()), thorough=(args.tier == "thorough"),
+                                      pre=getattr(mod, "PRE_LEAN", None))
         except Exception as e:  # tool failure
             print("lean step failed:", repr(e))
             traceback.print_exc()
